@@ -19,7 +19,9 @@ fn lchown(p: &Path, uid: u32) {
 }
 
 /// Run `f` in a forked child with the given uid; returns what it wrote.
-fn run_as(uid: u32, f: impl FnOnce(&mut Vec<u8>)) -> Vec<u8> {
+/// `split`: only the effective (and with it the filesystem) ids change, the real ids stay 0 — the kernel's rule and the
+/// library's are about the fsuid, which a caller that reads the real uid gets wrong only here.
+fn run_as(uid: u32, split: bool, f: impl FnOnce(&mut Vec<u8>)) -> Vec<u8> {
     let mut fds = [0i32; 2];
     assert_eq!(unsafe { libc::pipe(fds.as_mut_ptr()) }, 0);
     let pid = unsafe { libc::fork() };
@@ -29,8 +31,13 @@ fn run_as(uid: u32, f: impl FnOnce(&mut Vec<u8>)) -> Vec<u8> {
         if uid != 0 {
             unsafe {
                 libc::setgroups(0, std::ptr::null());
-                assert_eq!(libc::setresgid(uid, uid, uid), 0);
-                assert_eq!(libc::setresuid(uid, uid, uid), 0);
+                if split {
+                    assert_eq!(libc::setresgid(u32::MAX, uid, u32::MAX), 0);
+                    assert_eq!(libc::setresuid(u32::MAX, uid, u32::MAX), 0);
+                } else {
+                    assert_eq!(libc::setresgid(uid, uid, uid), 0);
+                    assert_eq!(libc::setresuid(uid, uid, uid), 0);
+                }
             }
         }
         let mut buf = Vec::new();
@@ -101,7 +108,7 @@ pub fn suite(ctx: &mut Ctx, cold: bool) {
                     spec
                 };
                 let labels = tree::Labels::of_tree(&spec, &rootdir);
-                for &caller in &uids {
+                for &(caller, split) in &[(0u32, false), (1000, false), (2000, false), (1000, true), (2000, true)] {
                     for (position, path) in [
                         ("trailing", &b"s/link"[..]),
                         ("trailing_slash", b"s/link/"),
@@ -130,7 +137,7 @@ pub fn suite(ctx: &mut Ctx, cold: bool) {
                         for emulated in [true, false] {
                             n += 1;
                             let id = format!("p{n}{}", if emulated { "e" } else { "k" });
-                            let out = run_as(caller, |buf| {
+                            let out = run_as(caller, split, |buf| {
                                 if cold {
                                     if let Ok(mut w) = Root::open(top.join("warm")) {
                                         w.verif_set_emulated(true);
@@ -149,7 +156,7 @@ pub fn suite(ctx: &mut Ctx, cold: bool) {
                                 root.set_resolver_flags(rflags);
                                 let op = op.clone();
                                 let mut s = String::new();
-                                s.push_str(&format!("case {id}\nmeta seed=0 suite=c15 dir_mode={dir_mode:o} dir_uid={dir_uid} link_uid={link_uid} caller={caller} position={position}\n"));
+                                s.push_str(&format!("case {id}\nmeta seed=0 suite=c15 dir_mode={dir_mode:o} dir_uid={dir_uid} link_uid={link_uid} caller={caller} ruid={} position={position}\n", if split { 0 } else { caller }));
                                 s.push_str(&format!("tree {}\n", spec.entries.len()));
                                 s.push_str(&spec.lines());
                                 s.push_str(&op.line());
